@@ -56,6 +56,31 @@ def run(ctx):
         bad_all += tok_corr.check(any_cases, "any-start-state", stats, pool, verbose=False, anystate=True)
         ctx.ops["any-start-state"] = len(any_cases)
         ctx.evaluations += len(any_cases)
+    # ---- the WHATWG clause: real tokenizer against the independent Spec (H5.Spec.Tokenizer), canonicalised
+    import spec_corr
+    spec_cases = []
+    for label, g in [("exh", tok_corr.gen_exhaustive(2, cfgs)), ("prefix", tok_corr.gen_prefixed(1)),
+                     ("soup", tok_corr.gen_soup(rng, 60000 if thorough else 6000)),
+                     ("extra", spec_corr.gen_extra_prefixed()), ("sig", spec_corr.gen_random_sig(rng, 20000 if thorough else 3000))]:
+        spec_cases += list(g)
+    # a last-start-tag with upper-case ASCII can never come from the tokenizer: outside the property's domain
+    spec_cases = [c for c in spec_cases if c[1] is None or c[1] == spec_corr._ascii_lower(c[1])]
+    spec_cases += [("dataState", None, True, "<![CDATA[\x00]]>"), ("rcdataState", "\u212a", False, "</K >")]   # recorded findings
+    with Pool(os.cpu_count()) as pool:
+        real_lines = pool.map(spec_corr.real_canon, spec_cases, chunksize=500)
+    spec_lines = lean.run_driver([tok_corr.req("spec-tok", c) for c in spec_cases])
+    for c, r, sp in zip(spec_cases, real_lines, spec_lines):
+        ctx.evaluations += 1
+        if r != sp:
+            try:
+                cls = spec_corr.classify(c, spec_corr.dec_line(r), spec_corr.dec_line(sp))
+            except Exception:
+                cls = "UNCLASSIFIED"
+            if cls == "UNCLASSIFIED":
+                cls = "whatwg-differs:%s" % c[0]
+            ctx.fail(cls, "real tokenizer output differs from the WHATWG tokenization (H5.Spec.Tokenizer)",
+                     {"state": c[0], "lastStartTag": c[1], "cdata": c[2], "input": c[3][:200], "real": r[:300], "spec": sp[:300]})
+    ctx.ops["real-vs-spec"] = len(spec_cases)
     reached = [n for n in tok_corr.ALL_STATES if stats["visited"] & tok_corr.STATE_BIT[n]]
     ctx.dist["states_reached"] = len(reached)
     ctx.dist["states_total"] = len(tok_corr.ALL_STATES)
